@@ -21,7 +21,8 @@ from .. import storegen as G
 
 PROP = "C17"
 CLAUSES = {"CwdSameExit", "CwdSameEffects", "CwdSameLocations", "NearestRootWins"}
-CWDS = ["", "pk", "pk/sub", "nocond/deep", "cond-out", "cond-out/pk", "cond"]
+# the last one is an unrecorded (garbage) output directory: `cond gc` run from there removes its own working directory
+CWDS = ["", "pk", "pk/sub", "nocond/deep", "cond-out", "cond-out/pk", "cond", "cond-out/pk/gone.task.77"]
 
 
 def commands(rng):
@@ -142,7 +143,9 @@ def scenario(rng, k, label):
     if rng.random() < 0.6:
         prefix.append(G.run_step(rng, 150, again=True, p_fail=0.4))
     prefix.append({"cmd": "plant", "entries": [e for e in G.gc_plants(rng) if e.get("kind") != "symlink"] + [
-        {"path": "cond-out/pk2/e.task.9", "kind": "dir", "files": {"w": "garbage in a package whose name extends `pk`"}}]})
+        {"path": "cond-out/pk2/e.task.9", "kind": "dir", "files": {"w": "garbage in a package whose name extends `pk`"}},
+        {"path": "cond-out/pk/gone.task.77", "kind": "dir", "files": {"w": "garbage used as a working directory"}},
+        {"path": "cond-out/zzz.task.99", "kind": "dir", "files": {"w": "garbage that sorts after everything else"}}]})
     scn = {"project": proj, "prefix": prefix, "cmd": (label, 0), "tag": [k, label]}
     if k % 2 == 1:
         proj["config"] = ""
